@@ -17,7 +17,7 @@ SIZES = {
     "thorough": list(range(0, 41)) + [63, 64, 65, 127, 128, 129, 255, 256, 257],
 }
 # families whose cost grows quadratically or whose depth is limited by recursion get a cap
-CAPS = {"reusedeep": 64, "deep": 60, "cases": 130, "blocks": 130, "poly": 40, "rowpoly": 130, "funcs": 130}
+CAPS = {"afterrefusal": 12, "reusedeep": 64, "deep": 60, "cases": 130, "blocks": 130, "poly": 40, "rowpoly": 130, "funcs": 130}
 
 
 def _host(host, in_types):
@@ -301,14 +301,42 @@ def reusedeep(host, n):
     return _finish(m, d)
 
 
+def afterrefusal(host, n):
+    """History with a refused call in it: n spare nodes are deleted (free indices), an insert_nested with a wire
+    from inside a sibling region is refused, then building goes on (another insertion, an op, the outputs).
+    Whatever the refused call left behind, the graph that is serialized afterwards is judged like any other."""
+    from hugr import tys
+    from hugr.std.logic import Not
+    from mc.drivers import bpm
+
+    m, d = _host(host, [tys.Bool])
+    (a,) = d.inputs()
+    spare = [d.add(Not(a)) for _ in range(n)]
+    region = d.add_nested(a)
+    region.set_outputs(*region.inputs())
+    for sp in spare:
+        d.hugr.delete_node(sp)
+    try:
+        d.insert_nested(bpm._frag_dfg(), region.inputs()[0])
+    except Exception:  # noqa: BLE001
+        pass
+    node = d.insert_nested(bpm._frag_dfg(), a)
+    x = d.add(Not(a))
+    d.set_outputs(node.out(0), node.out(1), x, region.parent_node.out(0))
+    return _finish(m, d)
+
+
 FAMILIES = {"crossorder": crossorder, "reusedeep": reusedeep, "wide": wide, "fanout": fanout, "chain": chain, "deep": deep, "cases": cases, "blocks": blocks, "loops": loops,
-            "funcs": funcs, "poly": poly, "rowpoly": rowpoly, "reuse": reuse}
+            "funcs": funcs, "poly": poly, "rowpoly": rowpoly, "reuse": reuse, "afterrefusal": afterrefusal}
 MODULE_ONLY = {"funcs", "poly", "rowpoly"}
+#: families whose HUGR holds what a refused call left behind (an unwired copy): not valid, not drawn/exported - only
+#: the serializer's own promises (C02 round trip, C03 document sanity) are judged on them
+LEFTOVERS = {"afterrefusal"}
 # `reuse` leaves re-added Noops whose outputs are unused (fine: Bool is copyable) -> still a valid HUGR
 
 
-def cases_for(tier, hosts=("dfg", "fn"), families=None):
-    for fam in families or FAMILIES:
+def cases_for(tier, hosts=("dfg", "fn"), families=None, leftovers=False):
+    for fam in families or [f for f in FAMILIES if leftovers or f not in LEFTOVERS]:
         for n in SIZES[tier]:
             if n > CAPS.get(fam, 10**9):
                 continue
